@@ -34,3 +34,20 @@ func runReplay(path string) int {
 func runSelftest(which string, args []string) int {
 	return 2
 }
+
+func runDebugCase(prop, idx string) int {
+	var i int
+	fmt.Sscan(idx, &i)
+	b := common.Prepare("debug", false)
+	e := engc.NewEngine(b, prop)
+	c := engc.GenCase(common.Rng(common.Seed(), i), prop, false)
+	dir := b.Root + "/case"
+	os.MkdirAll(dir, 0777)
+	fmt.Println("layout:", c.Layout, "pkgs:", c.Pkgs)
+	out := e.RunCase(c, dir)
+	for _, l := range out.Log {
+		fmt.Println(l)
+	}
+	fmt.Println("infra:", out.Infra)
+	return 0
+}
